@@ -14,10 +14,13 @@ Definition jval (j : jv) : jv := JC "Val" [j].
 
 (* the seven accessors fed by /proc/<pid>/stat, in this order:
    name ppid status cpu_times create_time cpu_num terminal *)
-Definition model_stat (masked : bool) (clk : positive) (bt : Z) (devs : list (bytes * option Z)) (data : bytes) : jv :=
+Definition model_stat (masked : bool) (clk : positive) (procstat : bytes)
+    (dev pts : list (bytes * option Z)) (data : bytes) : jv :=
   let f {A} (o : outcome A) := front data o in
-  JL [ jv_outcome jb (f (name data)); jv_outcome jz (f (ppid data)); jv_outcome jb (f (status data));
-       jv_outcome jqs (f (cpu_times clk data)); jv_outcome jq (f (create_time clk bt data));
+  let devs := glob_tty dev ++ glob_pts pts in
+  JL [ jv_outcome jb (f (name data)); jv_outcome jz (f (ppid data));
+       jv_outcome jb (f (status_public (status data)));
+       jv_outcome jqs (f (cpu_times clk data)); jv_outcome jq (f (create_time_full clk procstat data));
        jv_outcome jz (f (cpu_num data)); jv_outcome jterm (f (terminal masked devs data)) ].
 
 Definition dec_of (o : option bytes) : option Z :=
@@ -51,7 +54,7 @@ Definition spec_stat (clk : positive) (bt : Z) (devs : list devnode) (tty : opti
             match tty, fld 7 r with
             | None, Some t => if beqb t [48] then jval (jterm None) else jnone
             | Some (ma, mi), Some t =>
-              if wf_dev {| d_path := []; d_major := ma; d_minor := mi |}
+              if wf_dev {| d_path := []; d_major := ma; d_minor := mi; d_gone := false |}
               then match parse_int t with
                    | Some v => if v =? as_int32 (kernel_encode_dev ma mi)
                                then jval (jterm (spec_terminal ma mi devs None)) else jnone
@@ -63,10 +66,31 @@ Definition spec_stat (clk : positive) (bt : Z) (devs : list devnode) (tty : opti
           else jnone) ]
   else jnone.
 
-Definition run_stat (masked : bool) (clk : positive) (bt : Z) (devs : list devnode) (tty : option (Z * Z)) (r : kstat) : jv :=
-  JL [ JB (k_stat r); model_stat masked clk bt (map dev_entry devs) (k_stat r); spec_stat clk bt devs tty r ].
-Definition run_stat_raw (masked : bool) (clk : positive) (bt : Z) (devs : list (bytes * option Z)) (data : bytes) : jv :=
-  JL [ model_stat masked clk bt devs data ].
+Definition run_stat (masked : bool) (clk : positive) (b : kprocstat) (dev pts : list devnode)
+    (tty : option (Z * Z)) (r : kstat) : jv :=
+  JL [ JB (k_stat r); JB (k_procstat b);
+       model_stat masked clk (k_procstat b) (map dev_entry dev) (map dev_entry pts) (k_stat r);
+       (if wf_kprocstat b then spec_stat clk (dec_val (b_btime b)) (listed_nodes dev pts) tty r else jnone) ].
+Definition run_stat_raw (masked : bool) (clk : positive) (procstat : bytes)
+    (dev pts : list (bytes * option Z)) (data : bytes) : jv :=
+  JL [ model_stat masked clk procstat dev pts data ].
+
+(* a read fault on the stat file between the construction of the object and the call:
+   name, status (through the front end), cpu_num *)
+Definition run_stat_race (r : kstat) (first : sread) (second : option sread) (exists_after : bool) : jv :=
+  let s2 := match second with Some x => x | None => SData (k_stat r) end in
+  JL [ JB (k_stat r);
+       JL [ jv_outcome jb (wrapped name first s2 exists_after);
+            jv_outcome jb (status_public (wrapped status first s2 exists_after));
+            jv_outcome jz (wrapped cpu_num first s2 exists_after) ];
+       (if wf_kstat r then
+          JL [ jnone;
+               match first, second, fld 3 r with
+               | SESRCH, None, Some [90] | SENOENT, None, Some [90] => jval (JB (bs "zombie"))
+               | _, _, _ => jnone
+               end;
+               jnone ]
+        else jnone) ].
 
 (* uids gids num_threads num_ctx_switches *)
 Definition model_status (data : bytes) : jv :=
@@ -91,9 +115,9 @@ Definition run_threads_raw (clk : positive) (listing : list (bytes * tfile)) (al
   JL [ jv_outcome jrows (threads clk listing alive own) ].
 
 Definition jpmap (l : list (Z * Z)) : jv := JL (map jpair l).
-Definition run_ppid_map (ps : list kproc) : jv :=
-  JL [ JL (map (fun p => JB (k_stat (p_stat p))) ps);
-       jv_outcome jpmap (ppid_map (map proc_entry ps));
-       (if forallb wf_kproc ps then jval (jpmap (spec_ppid_map ps)) else jnone) ].
-Definition run_ppid_map_raw (procs : list (Z * tfile)) : jv :=
-  JL [ jv_outcome jpmap (ppid_map procs) ].
+Definition run_ppid_map (es : list kentry) : jv :=
+  JL [ JL (map (fun e => match snd (entry_of e) with TContent d => JB d | _ => jnone end) es);
+       JL [ jv_outcome jpmap (ppid_map (map entry_of es)); jval (jzs (pids (map fst (map entry_of es)))) ];
+       (if forallb wf_kentry es then JL [ jval (jpmap (spec_ppid_map es)); jval (jzs (spec_pids es)) ] else jnone) ].
+Definition run_ppid_map_raw (listing : list (bytes * tfile)) : jv :=
+  JL [ JL [ jv_outcome jpmap (ppid_map listing); jval (jzs (pids (map fst listing))) ] ].
